@@ -151,3 +151,45 @@ func vpH_C13_T_leader_tampered_watch() {
 	vpQuiesce()
 	vpAssert("C13.responsive", vpThreadsAlive() == 0)
 }
+
+// vpH_C13_T_empty_record_closed_watch: the follower's watch subscription ended right after the initial value
+// (server-side close) and an outside party overwrites the record with an empty value that stays there: every
+// periodic check starts an acquisition round that cannot win. The follower's activity stays bounded: no
+// further watch subscriptions pile up, the rate of store operations does not grow.
+func vpH_C13_T_empty_record_closed_watch() {
+	H := time.Second
+	vpSetOpt("rand-fixed", 1)
+	s := &vpFollowerScn{H: H}
+	s.st = vpNewStore("g", 0)
+	s.st.watchMode = 1
+	s.st.maxWatches = 4
+	s.st.write("env:other", "create", vpRecMk("other", "tok-other", 0), false, 0)
+	s.kv = vpHandle(s.st, "a")
+	s.kv.opLeft = 400
+	cfg := vpBaseConfig("a", H, 3*H)
+	cfg.ValidationInterval = time.Hour
+	s.e = vpMustNew(&vpProvider{s.kv}, cfg)
+	s.cb = &vpCallbacks{}
+	s.cb.install(s.e)
+	_ = s.e.Start(vpRootCtx())
+	time.Sleep(700 * time.Millisecond)
+	vpQuiesce()
+	s.st.write("env:outsider", "update", make([]byte, 0), false, s.st.lastSeq)
+	time.Sleep(2 * time.Second)
+	vpQuiesce()
+	ops2 := len(s.st.issued)
+	time.Sleep(2 * time.Second)
+	vpQuiesce()
+	ops4 := len(s.st.issued)
+	vpCover("C13.empty-record-closed-watch")
+	watches := 0
+	for _, is := range s.st.issued {
+		if is.op == "watch" {
+			watches++
+		}
+	}
+	vpAssert("C13.no-unbounded", watches <= 2)
+	vpAssert("C13.no-unbounded:rate", ops4-ops2 <= ops2+10) // the second two seconds cost no more than the first two
+	vpAssert("C13.no-claim-over-foreign", !s.e.IsLeader())
+	_ = s.e.Stop()
+}
